@@ -32,9 +32,9 @@ def nsol_all(ctx, a, seam):
     sol = ctx.arg(a["sol"])
     net = sol.network
     out = []
-    for n in net.node_labels + ["__unknown__"]:
+    for n in list(net.node_labels) + ["__unknown__"]:
         out.append(["potential", n, _try(lambda: sol.get_potential(n))])
-    for b in net.branch_ids + ["__unknown__"]:
+    for b in list(net.branch_ids) + ["__unknown__"]:
         for q in ("voltage", "current", "power"):
             out.append([q, b, _try(lambda: getattr(sol, "get_" + q)(b))])
     return out
@@ -87,7 +87,7 @@ def net_props(ctx, a, seam):
     """read-only accessors of Network"""
     net = ctx.arg(a["net"])
     n = a.get("node", "0")
-    return [net.branch_ids, net.node_labels, net.number_of_nodes, net.is_zero_node(n),
+    return [list(net.branch_ids), list(net.node_labels), net.number_of_nodes, net.is_zero_node(n),
             [b.id for b in net.branches_connected_to(n)], sorted(net.nodes_connected_to(n)),
             [b.id for b in net.branches_between(n, a.get("node2", "0"))]]
 
@@ -142,10 +142,10 @@ def ssm_all(ctx, a, seam):
     m = ctx.arg(a["ssm"])
     out = [m.A, m.B, m.C, m.D, _try(lambda: m.sources)]
     net = m.network
-    for n in net.node_labels:
+    for n in list(net.node_labels):
         out.append(_try(lambda: m.c_row_for_potential(n)))
         out.append(_try(lambda: m.d_row_for_potential(n)))
-    for b in net.branch_ids:
+    for b in list(net.branch_ids):
         for q in ("c_row_voltage", "c_row_current", "d_row_voltage", "d_row_current"):
             out.append(_try(lambda: getattr(m, q)(b)))
     return out
